@@ -180,6 +180,17 @@ def run_case(ctx, case):
                 target = value  # copy-on-write reset: the copy carries the reset
                 if not hasattr(target, "__spec_class__"):
                     continue
+                # ... and is a peer: it shares nothing mutable with the instance it was made from (do_not_copy attributes
+                # excepted - which is why it does not join the pool: the pool's snapshots do not know about such sharing)
+                if target is not cur:
+                    tdnc = class_dnc(world, type(target).__name__) | {n for n, a in world.attrs(type(target).__name__).items() if a.get("do_not_copy")}
+                    skip_dnc = lambda owner, key: hasattr(owner, "__spec_class__") and key in tdnc and type(owner) is type(target)  # noqa: E731
+                    mine, theirs = mutable_ids(target, skip_dnc), mutable_ids(cur, skip_dnc)
+                    both = [mine[k_] for k_ in mine if k_ in theirs]
+                    if both:
+                        ctx.fail(f"{route}|copy_shares:{type(both[0]).__name__}", case, f"step {i} {op}: the copy returned by the reset shares {both[0]!r} with the instance it was made from")
+                        return
+
             tcls = type(target).__name__
             tattrs = world.attrs(tcls)
             names = list(tattrs) if op["reset"] == "all" else ([op["attr"]] if op["reset"] == "del" else op["reset"])
